@@ -143,10 +143,10 @@ type fn struct {
 }
 
 type g struct {
-	t      *rapid.T
-	o      Options
-	byRet  map[parser.ValueType][]fn
-	aggs   []string
+	t     *rapid.T
+	o     Options
+	byRet map[parser.ValueType][]fn
+	aggs  []string
 }
 
 var rangeDependentFns = map[string]bool{"start": true, "end": true, "range": true, "step": true}
